@@ -185,11 +185,17 @@ def run(R):
             reqs.append(core.sx(['pyeq', ea, eb]))
             meta.append((case, ab))
         if trees.is_obj(a):
-            # _asdict: fields in declaration order
+            # _asdict: the fields, all of them and nothing else, in declaration order - also when the caller has hung an
+            # attribute of its own on the object
+            extra = rnd.random() < 0.4
+            if extra:
+                a.note = 'a note of the caller'
             d = safe(lambda: list(a._asdict().items()))
             want = ('ok', [(f, getattr(a, f)) for f in a._fields])
             if d[0] != 'ok' or [k for k, _ in d[1]] != list(a._fields) or any(x is not y for (_, x), (_, y) in zip(d[1], want[1])):
-                R.counterexample('asdict', 'asdict-order-or-content', case, repr(want)[:300], repr(d)[:300])
+                R.counterexample('asdict', 'asdict-order-or-content', dict(case, extra_attribute=extra), repr(want)[:300], repr(d)[:300])
+            if extra:
+                del a.note
             # _replace: new object, given field replaced, others and metadata kept, original untouched
             if a._fields:
                 a._metadata.position_info = (1, 2)
